@@ -25,9 +25,18 @@ def diff(a, b, path="", out=None, limit=6):
     return out
 
 
+def exc_name(exc):
+    """Name of the exception class as the properties see it: a class the library defines itself counts as the class it
+    derives from (class FieldTypeError(TypeError) IS a TypeError), everything else keeps its own name."""
+    for cls in type(exc).__mro__:
+        if not (getattr(cls, "__module__", "") or "").startswith("productmd"):
+            return cls.__name__
+    return type(exc).__name__
+
+
 def call(fn, *a, **kw):
     """["ok", value] or ["exc", ExceptionTypeName] - deterministic across processes."""
     try:
         return ["ok", fn(*a, **kw)]
     except Exception as exc:                                       # noqa
-        return ["exc", type(exc).__name__]
+        return ["exc", exc_name(exc)]
